@@ -77,7 +77,7 @@ def run(rec):
         bs, ds = H().block_size, H().digest_size
         lens = set()
         for v in lits:
-            for w in (v - 1, v, v + 1, v - v % bs, v - v % bs + bs, v - v % ds, 2 * (v - v % bs), v - bs, v + bs):
+            for w in (v - 1, v, v + 1, v - v % bs, v - v % bs + bs, v - v % ds, 2 * (v - v % bs), v - bs, v + bs, v * bs, v * ds, 2 * v * bs, v * bs - 48):
                 if 0 <= w <= 4 * 10 ** 6:
                     lens.add(w)
         for ml in sorted(lens):
